@@ -5,6 +5,7 @@ from pytorch_wavelets.dtcwt.lowlevel import colfilter, rowfilter
 from pytorch_wavelets.dtcwt.lowlevel import coldfilt, rowdfilt
 from pytorch_wavelets.dtcwt.lowlevel import colifilt, rowifilt, q2c, c2q
 from pytorch_wavelets.dwt.lowlevel import int_to_mode
+from pytorch_wavelets._verif import point as _vp
 
 
 def get_dimensions5(o_dim, ri_dim):
@@ -362,6 +363,7 @@ class FWD_J1(Function):
         h0, h1 = ctx.saved_tensors
         mode = ctx.mode
         dx = None
+        _vp('FWD_J1.backward', needs=tuple(ctx.needs_input_grad[:1]), dims=tuple(ctx.dims))
         if ctx.needs_input_grad[0]:
             o_dim, ri_dim, h_dim, w_dim = ctx.dims
             if dh is not None and dh.shape != torch.Size([]):
@@ -400,6 +402,7 @@ class FWD_J2PLUS(Function):
         h0a, h0b = h0b, h0a
         h1a, h1b = h1b, h1a
         dx = None
+        _vp('FWD_J2PLUS.backward', needs=tuple(ctx.needs_input_grad[:1]), dims=tuple(ctx.dims))
         if ctx.needs_input_grad[0]:
             o_dim, ri_dim, h_dim, w_dim = ctx.dims
             if dh is not None and dh.shape != torch.Size([]):
@@ -437,6 +440,7 @@ class INV_J1(Function):
         dh = None
         o_dim, ri_dim = ctx.dims[0], ctx.dims[1]
         mode = ctx.mode
+        _vp('INV_J1.backward', needs=tuple(ctx.needs_input_grad[:2]), dims=tuple(ctx.dims))
         if ctx.needs_input_grad[0] and not ctx.needs_input_grad[1]:
             dl, _, _ = fwd_j1(dy, g0, g1, True, o_dim, mode)
         elif ctx.needs_input_grad[1] and not ctx.needs_input_grad[0]:
@@ -476,6 +480,7 @@ class INV_J2PLUS(Function):
         mode = ctx.mode
         dl = None
         dh = None
+        _vp('INV_J2PLUS.backward', needs=tuple(ctx.needs_input_grad[:2]), dims=tuple(ctx.dims))
         if ctx.needs_input_grad[0] and not ctx.needs_input_grad[1]:
             dl, _,  _ = fwd_j2plus(dy, g0a, g1a, g0b, g1b, True, o_dim, mode)
         elif ctx.needs_input_grad[1] and not ctx.needs_input_grad[0]:
